@@ -10,8 +10,10 @@ RULE = ("exhaustive: one retirable service after query+retire, every sequence of
         "services after query-all, every sequence of length <= 3 / 5 over {hide(2), show(2), retire, retired(1), retired(2), exit}; cluster membership "
         "changing under the controller (topology rebuilt, own services re-published with the node's current state): one service after query-all, every "
         "sequence of length <= 4 / 6 over {topo(1), retire, retired(1), exit, stop-done}, and two services, every sequence of length <= 3 / 4 over "
-        "{topo(2), topo(0), query-all, retire, retired(1), notify(2), hide(2), show(2)}; each followed by web_nodes. "
-        "random: 0-4 hosted services with mixed dispositions (ok / no / no listener / error / absent, sometimes listed twice), "
+        "{topo(2), topo(0), query-all, retire, retired(1), notify(2), hide(2), show(2)}; the node's service list as a dimension: an entry the services section does not define "
+        "at the first / middle / last position among two services (also with a service listed twice), every sequence of length <= 3 (2 for last / duplicates) / 4 (3) over "
+        "{query-all, retire, retired(1), retired(2), exit, web_nodes}, and a list of undefined entries only (length <= 2); each followed by web_nodes. "
+        "random: 0-4 hosted services with mixed dispositions (ok / no / no listener / error / absent, sometimes listed twice, in a quarter of the cases with one or two undefined entries at random positions of the list), "
         "life-cycle stories with noise, repetitions and premature commands, and uniformly random histories of 1-60 operations over "
         "stat/retire/exit/web_*/unknown commands, query-all/query-one, retired notifications (known, unknown, repeated, via the real "
         "NotifyServiceRetired), other service commands, stop-done(true/false) and hide/show of a service (GetService answers nil while hidden) placed around "
@@ -29,7 +31,7 @@ ASSUMPTIONS = [
     "topology publications (Cluster.UpdateClusterTopology) happen between controller operations, not concurrently with one (the etcd provider calls it from its watch goroutine; ClusterServices replaces its maps wholesale without a lock)",
     "the cluster provider behaves like clusterproviders/etcd: UpdateClusterState records the own state and does not publish a topology; a topology is published on membership changes, the own member always included with the state recorded last; no other member hosts a service with the name of an own service (MakeMembers keeps whichever it meets first and logs 'duplicate service name')",
     "the set of hosted services is fixed at NodeCtrl.Start (makeServices); a service's answer to queryretire does not change over time; whether INodeApp.GetService resolves it MAY change at any time (OHide/OShow: a topology whose own member lacks / again lists the service), the service itself keeps running; a configured service that no process runs for (DAbsent) is listed in the directory like any other, the command sent to it is lost",
-    "service names are arbitrary distinct strings (tokens in the model); a name listed twice in the node configuration denotes one service",
+    "service names are arbitrary distinct strings (tokens in the model); a name listed twice in the node configuration denotes one service; a name is either defined in the services section or not (an undefined list entry never shares its name with a hosted service)",
 ]
 TECHNIQUE = ("Coq proof (state machine of the repaired NodeCtrl over the node application's service directory; invariant tying its fields to history functions "
              "`declared`/`reported`/`hidden` and to the published-state trace, by induction over operations; simulation between a history and the same history "
@@ -37,8 +39,9 @@ TECHNIQUE = ("Coq proof (state machine of the repaired NodeCtrl over the node ap
 LEVEL_TEXT = ("Machine-checked Coq theorems over all configurations and all operation histories: retire guard (iff), every hosted service resolvable at that moment told (and only those), a service that did not itself report retired never counted as retired, "
               "retired only after / as soon as all services reported (in whatever order reports and accepted or refused retire commands came: a report is never lost, C12_reports_are_kept), "
               "retirement support declared by the answer to the support query and by nothing else (C12_support_only_by_query), exit guard (iff), StopNode at most once and exactly once per accepted exit, "
+              "entries of the node's service list that the services section does not define are invisible (hosted = the defined entries in order, C12_undefined_entries_invisible), "
               "published states monotone, refused commands are no-ops, the service directory as a function of the history (entries = hosted services the topology lists, each with the "
               "node state copied at the last topology publication, stale in between), name resolution and hence command delivery independent of those state copies "
               "(erasing every membership change from any history leaves all other observations unchanged), and the executable monitor accepts every model trace. The model is tied to the "
               "Go code by running both on the same histories each run; the monitor (the theorems' statements, both directions of the retired clause and the per-service view shown by web_nodes "
-              "included: retired iff reported, supporting iff declared) is also evaluated on the implementation's own traces.")
+              "included: exactly the started services enumerated, retired iff reported, supporting iff declared; the support query reaching every started resolvable service) is also evaluated on the implementation's own traces.")
